@@ -7,6 +7,18 @@ from .hub_common import (receive_handlers, subtree, release_loops, release_guard
                          HUBCFG, PARAMS, STATE, BATCH, HISTORY)
 
 
+def _through_wrapper(world, x, readers):
+    """`wrapper(..)!some.f` -> `reader(..)!ok.f` when the workspace function `wrapper` merely filters what a history reader returns:
+    one-step expansion of the wrapper call, the readers themselves stay unexpanded"""
+    from ..expr import E, simplify
+    if x.op == "field" and x.args[0].op == "proj" and x.args[0].args[0].op == "call":
+        c = x.args[0].args[0]
+        if c.info not in readers and world.callee_body(c) is not None:
+            inner = world.ident(E("proj", (world.expand(c),), x.args[0].info), expand_ws=False)
+            return world.ident(simplify(E("field", (inner,), x.info)), expand_ws=False)
+    return x
+
+
 def roll_over_fns(sem, vs):
     """functions that create a history entry with released = false (by calling the history writer)"""
     out = {}
@@ -214,12 +226,14 @@ def run(prog, world, sem, rep):
             elif f.endswith("_withdraw_rate"):
                 continue
             else:
-                src = xi
-                base = src.args[0] if src.op == "field" else None
-                if base is not None and base.op == "proj":
-                    base = base.args[0]
-                same = src.op == "field" and src.info[0] == f and base.op == "call" \
-                    and base.info in readers and world.ident(base.args[1], expand_ws=False) == kid
+                same = False
+                # (the entry may have been read through a wrapper around the reader: second attempt with workspace calls expanded)
+                for src in (xi, _through_wrapper(world, xi, readers)):
+                    base = src.args[0] if src.op == "field" else None
+                    if base is not None and base.op == "proj":
+                        base = base.args[0]
+                    same = same or (src.op == "field" and src.info[0] == f and base is not None and base.op == "call"
+                                    and base.info in readers and world.ident(base.args[1], expand_ws=False) == kid)
                 if not same:
                     bad.append("%s := %s" % (f, show(xi, 3)))
     rep.ob("C08.d", "releaser changes only released and the withdraw rates", okf and not bad, "; ".join(bad) if bad else "other fields copied from the entry read", where(lv.body, wb))
